@@ -124,12 +124,14 @@ pub struct CycleShape {
     pub cross_calls: usize,
     pub init_calls: usize,
     pub namespaces: usize,
+    /// length of the deep helper chain (0 = none)
+    pub deep_chain: usize,
 }
 
 pub fn cycle_program(rng: &mut Rng) -> (String, CycleShape) {
     let mut pool = Pool { globs: Vec::new() };
     let ncyc = if rng.chance(2, 3) { rng.range(4, 6) } else { rng.range(1, 3) } as usize;
-    let mut shape = CycleShape { cycles: ncyc, longest: 0, self_recursive: 0, cross_calls: 0, init_calls: 0, namespaces: 0 };
+    let mut shape = CycleShape { cycles: ncyc, longest: 0, self_recursive: 0, cross_calls: 0, init_calls: 0, namespaces: 0, deep_chain: 0 };
 
     // ---- cycles: members and the calls between them
     let mut cycles: Vec<Vec<Func>> = Vec::new();
@@ -205,6 +207,29 @@ pub fn cycle_program(rng: &mut Rng) -> (String, CycleShape) {
             }
         }
         cycles.push(members);
+    }
+    // ---- sometimes one DEEP helper chain (9-24 calls) below a member: a closure loop that stops after a fixed number
+    // of sweeps (instead of running to the fixpoint) is complete or not depending on the key order
+    if rng.chance(1, 3) {
+        let depth = rng.range(9, 24) as usize;
+        let mut below: Option<String> = None;
+        for d in (0..depth).rev() {
+            let leaf = format!("deep_{}", d);
+            let mut f = Func { leaf: leaf.clone(), path: leaf.clone(), ns: None, globals: Vec::new(), calls: Vec::new() };
+            if below.is_none() || d % 4 == 0 {
+                let g = pool.fresh(rng);
+                f.globals.push(g);
+            }
+            if let Some(b) = &below {
+                f.calls.push(b.clone());
+            }
+            helpers.push(f);
+            below = Some(leaf);
+        }
+        let c = rng.below(ncyc as u64) as usize;
+        let l = cycles[c].len();
+        cycles[c][rng.below(l as u64) as usize].calls.push(below.unwrap());
+        shape.deep_chain = depth;
     }
     // ---- calls from one cycle into another (targets in the global scope only: they are declared up front)
     let global_scope: Vec<usize> = (0..ncyc).filter(|c| cycles[*c][0].ns.is_none()).collect();
